@@ -1060,6 +1060,17 @@ mod thr {
         run_progs(log, st, seed.to_string(), progs, &mut sched);
     }
 
+    /// a cell of the pid table that the harness has not recorded yet (cluster build only)
+    #[cfg(feature = "cluster")]
+    fn window_cell(w: &World) -> Option<ActorCell> {
+        // ids are handed out in increasing order: the youngest unknown cell is the one under construction
+        registry::get_all_pids().into_iter().filter(|c| c.get_id().is_local() && w.k_of(c) == 999).max_by_key(|c| c.get_id().pid())
+    }
+    #[cfg(not(feature = "cluster"))]
+    fn window_cell(_w: &World) -> Option<ActorCell> {
+        None
+    }
+
     fn run_progs(log: &mut Log, st: &mut Stats, seed: String, progs: Vec<Vec<Act>>, sched: &mut Sched) {
         let sh = Arc::new(Shared {
             ctx: Mutex::new(HashMap::new()),
@@ -1137,25 +1148,61 @@ mod thr {
             let act = sh.ctx.lock().unwrap().get(&tid).cloned().unwrap();
             ctls[tid].grant();
             let mut ph = ctls[tid].wait_parked_timeout(Duration::from_secs(20));
-            // cluster build: `ActorCell::new` has a point between its two registry operations; this engine's
-            // model (`Model/Registry.lean`) has them as one region, so the thread is taken through it at once
-            // (the window itself is the subject of `regmon.rs` / `Model/RegistryConc.lean`)
+            // cluster build: `ActorCell::new` has a point between its two registry operations. The model
+            // `Model/Registry.lean` has them as one region (`reg k n`): the thread is taken through the point
+            // at once - always under a scripted schedule (the `thrx` enumeration and old replay files stay as
+            // they were), and under a random schedule with probability 1/2. Otherwise the thread stays parked
+            // INSIDE the constructor window (name inserted, pid not yet): the step is logged as `regname k n`,
+            // the thread shows up in `parked` at `new.reg_pid` and its next step is `regpid k`
+            // (`Model/RegistryWindow.lean`); whatever other threads do meanwhile runs inside the window.
+            // The coin is only tossed when the point is reached, i.e. never in the non-cluster build.
+            let mut window_opened = false;
             while ph == Some(ThreadPhase::AtPoint("new.reg_pid")) {
+                // (`h.act`: a constructor that reaches the window without having entered `registry::register`
+                // at all - impossible in the code as it is; reported as `regname` too, the oracle then reads
+                // off the tables that the name is not there)
+                if point == "reg.entry" || (point == "h.act" && matches!(act, Act::Spawn { .. })) {
+                    if let Sched::Random { rng, .. } = sched {
+                        if rng.chance(1, 2) {
+                            window_opened = true;
+                            break;
+                        }
+                    }
+                }
                 ctls[tid].grant();
                 ph = ctls[tid].wait_parked_timeout(Duration::from_secs(20));
             }
             steps += 1;
+            // steps of OTHER threads taken while some thread sits in the window
+            if parked.iter().any(|(t, p)| *t != tid && *p == "new.reg_pid") {
+                st.bump("thr_window_foreign_steps");
+                let what = match point {
+                    "reg.entry" => "reg",
+                    "h.act" => "act",
+                    "new.reg_pid" => "regpid",
+                    "status.publish" => "pub",
+                    _ => "other",
+                };
+                st.bump(&format!("thr_window_foreign_{what}"));
+            }
             let k = match &act {
                 Act::Spawn { k, .. } | Act::Exit { k, .. } | Act::LateDrain { k } => *k,
                 Act::Lookup { .. } => 0,
             };
             let mut events: Vec<Ev> = std::mem::take(&mut *sh.events.lock().unwrap());
-            let (op, ans): (String, String) = match point {
+            let (op, ans): (String, String) = match if window_opened { "reg.entry" } else { point } {
                 "reg.entry" => {
                     let n = names_of[&k];
                     // who holds the name now? an unknown cell is the one just registered
-                    let ans = match registry::where_is(nm(n)) {
-                        Some(c) if w.k_of(&c) == 999 => {
+                    let mut newc = registry::where_is(nm(n)).filter(|c| w.k_of(c) == 999);
+                    // a thread parked at `new.reg_pid` is past the first registry operation of its constructor,
+                    // which therefore answered Ok: should the name table not show the cell (it must), the cell
+                    // is taken from the pid table so that the view - and the oracle - can speak about it
+                    if window_opened && newc.is_none() {
+                        newc = window_cell(&w);
+                    }
+                    let ans = match newc {
+                        Some(c) => {
                             let rec = Rec {
                                 cell: c,
                                 name: Some(n),
@@ -1168,10 +1215,21 @@ mod thr {
                             w.recs.insert(k, rec);
                             "ok"
                         }
-                        _ => "dup",
+                        None if window_opened => "ok",
+                        None => "dup",
                     };
                     st.bump(&format!("thr_reg_{ans}"));
-                    (format!("reg {k} {n}"), ans.into())
+                    if window_opened {
+                        st.bump("thr_window_opened");
+                        (format!("regname {k} {n}"), ans.into())
+                    } else {
+                        (format!("reg {k} {n}"), ans.into())
+                    }
+                }
+                // the second half of a constructor left parked in the window: `register_pid`
+                "new.reg_pid" => {
+                    st.bump("thr_window_closed");
+                    (format!("regpid {k}"), "ok".into())
                 }
                 "status.publish" => {
                     let s = pubs.get_mut(&k).and_then(|v| v.pop()).unwrap_or(9);
